@@ -23,9 +23,11 @@ U, I, F, G = "U", "int", "float", "fn"
 # The property's "iff some path reaches it" then says: never rejected because of it.  guppylang checks
 # such code as if it were entered from the jump.  The same question arises after `while True:` without
 # break and under `if False:` ("ignoring branch condition values" vs. folded constants).  The oracle
-# does not take sides: the reference is computed under BOTH readings — FALL[0] False: such code is
-# ignored, constant conditions are folded; True: a jump may also fall through, `while True` may exit,
-# `if False` may be entered — and a program is judged only when both give the same verdicts.
+# does not take sides: for a program that CONTAINS such dead code the reference is computed under BOTH
+# readings — FALL[0] False: such code is ignored, constant conditions are folded; True: a jump may also
+# fall through, `while True` may exit, `if False` may be entered — and the program is judged only when
+# both give the same verdicts.  Programs without dead code are judged by the first reading alone
+# (constant conditions folded: `while True` is left through `break` only).
 FALL = [False]
 VARS = ("x", "h")          # `h` is ALSO a module-level Guppy function: local only if assigned somewhere
 
@@ -137,7 +139,8 @@ class Ref:
                     self.verdicts.add("closure")
             elif k == "iffalse" and not FALL[0]:
                 # dead body: its assignments only make names local (Python scoping)
-                pass
+                if any(x[0] not in ("asg",) for x in s[1]):
+                    self.saw_dead = True
             elif k in ("if", "iffalse"):
                 t, b1, c1 = self.run(s[1], states, la, loop_ctx)
                 if k == "if" and s[2] is not None:
@@ -186,7 +189,9 @@ def has_dead(stmts):
     return False
 
 def reference(prog):
-    va, _ = _reference(prog, False)
+    va, dead = _reference(prog, False)
+    if not dead:
+        return va                          # no statically dead code: one reading
     vb, _ = _reference(prog, True)
     if va != vb:
         return va | vb | {"DEAD"}          # the two readings of dead code disagree: not judged
